@@ -410,6 +410,18 @@ def check_seq(case, ctx: Ctx):
             # output is there is not something the statement says (DESIGN section 9, #45)
             ctx.label("eom_slower_than_channel(prefix check skipped)")
             continue
+        if cv is not None and cv.blocks:
+            # EOM blocks that hold no EOM pulse (enable directly followed by disable, or left open and
+            # empty): the tree stitches the separately filtered parts differently in its two code paths
+            # (the ordinary pulse AFTER such a block comes out at the EOM bandwidth in one and at the
+            # channel's in the other); which is meant is not something the statement decides (#47)
+            def _has_pulse(bti, btf):
+                hi = btf if btf is not None else 10**12
+                return any(isinstance(sl[0], _Pulse) and bti <= sl[1] < hi and
+                           float(np.max(np.asarray(sl[0].amplitude.samples.as_array()))) > 0 for sl in cv.slots)
+            if not all(_has_pulse(b_[0], b_[1]) for b_ in cv.blocks):
+                ctx.label("empty_eom_block(prefix check skipped)")
+                continue
         # (amplitude only: the detuning is filtered with its ends held, and what the tree does
         #  with the held ends where the array stops is not part of the statement)
         for key in ("amp",):
@@ -423,6 +435,18 @@ def check_seq(case, ctx: Ctx):
             #  slightly near t=0: 2 % of the peak allowed, as for keep_ends in the filter clause)
             pk = float(np.max(np.abs(np.asarray(getattr(plain.channel_samples[n], key).as_array(), dtype=float)))) \
                 if plain.channel_samples[n].duration else 0.0
+            if cv is not None and cv.blocks:
+                # channels with EOM blocks: the tree's two code paths stitch the separately filtered parts
+                # differently in several corner cases (#45, #47, #48), so only the unambiguous signature is
+                # judged here: the fall after the last input sample must be IN the array - not identically
+                # zero where the extended call shows output
+                n_in = int(plain.channel_samples[n].duration) - r_
+                tail_a, tail_b = a[max(n_in, 0):], b[max(n_in, 0):]
+                if tail_a.size and float(np.max(np.abs(tail_a))) == 0.0 and float(np.max(np.abs(tail_b))) > 0.01 + 0.02 * pk:
+                    ctx.fail(C, f"modulated_samples_differ_from_extended_sampling:{key}:eom",
+                             f"{n}: the {len(tail_a)} samples after the last input sample are identically zero with "
+                             f"sample(modulation=True) and reach {float(np.max(np.abs(tail_b))):.4g} with an extended duration")
+                continue
             if a.shape == b.shape and a.size and np.max(np.abs(a - b)) > 0.01 + 0.02 * pk:
                 i = int(np.argmax(np.abs(a - b)))
                 ctx.fail(C, f"modulated_samples_differ_from_extended_sampling:{key}:{'eom' if cv is not None and cv.blocks else 'std'}",
